@@ -2,21 +2,19 @@ package metadata
 
 // Conformance driver for C15 / C16 / C19 (specs/MetaDB.tla).
 //
-// S->I: behaviours exported by TLC (exhaustive small instances + seeded simulation) are stepped
-// through the public methods of the real DBV2 over the real sqlite engine and the real fsbinlog in
-// a temporary directory, with Options.Now injected.  VERIF_MODE selects what decides the verdict:
+// Behaviours exported by TLC (exhaustive small instances + seeded random scripts followed by the
+// specification) are stepped through the public methods of the real DBV2 over the real sqlite
+// engine and the real fsbinlog in a temporary directory, with Options.Now injected.
 //
-//	C15  replies of SaveEntity (accepted / refused, id, version, namespace), racing edits from two
-//	     goroutines, JournalEvents (all `since`, several page sizes), GetHistoryShort /
-//	     GetEntityVersioned
-//	C19  replies of GetOrCreateMapping / deleteMappingsByIdBatched / ResetFlood and the mapping
-//	     table as served by GetNewMappings / GetMappingByValue / GetMappingByID
+//	C15, C19  every request, the reply of the code and the tables read back after the step
+//	     (journal / mapping table) are recorded as a trace that specs/MetaDBTrace.tla validates
+//	     against the properties (I->S).  Reads are cross-checked here: JournalEvents for every
+//	     `since` and several page sizes against the full journal, GetMappingByValue / ByID
+//	     against GetNewMappings.  Agreement with the mechanism of the specification (exact
+//	     replies, history, flood_limits, sqlite_sequence) is only counted, never a verdict.
 //	C16  the database is closed and reopened (a) into a fresh file replaying the whole binlog and
 //	     (b) from the file copies taken at every Snap step; the projection of the reopened
-//	     database is compared with the projection of the primary (both real)
-//
-// White-box state (flood_limits, sqlite_sequence) is compared with the specification only as a
-// note in C15/C19, and exactly (real against real) in C16.
+//	     database is compared with the projection of the primary (real against real).
 
 import (
 	"context"
@@ -74,6 +72,15 @@ func (r *verifMDRun) clock() time.Time {
 	r.mu.Lock()
 	defer r.mu.Unlock()
 	return time.Unix(r.now, 0)
+}
+
+// DBV2.Close without its 5 s deadline (the machine may be heavily loaded)
+func (r *verifMDRun) close() error {
+	db := r.db
+	r.db = nil
+	err := db.eng.Close(context.Background())
+	db.cancel()
+	return err
 }
 
 func (r *verifMDRun) open(file string, create bool) error {
@@ -342,9 +349,10 @@ func verifMDMappingReads(db *DBV2, m []any) error {
 type verifMDOutcome struct {
 	steps    int
 	mismatch *verifkit.Mismatch
-	diverged bool // the implementation left the exported behaviour (no verdict by itself in C16 mode)
+	diverged bool // the implementation left the mechanism of the specification (never a verdict)
 	note     string
 	class    string
+	trace    []map[string]any
 }
 
 func verifMDRunBehaviour(t *testing.T, mode string, idx int, beh verifMDBeh) (out verifMDOutcome) {
@@ -356,15 +364,32 @@ func verifMDRunBehaviour(t *testing.T, mode string, idx int, beh verifMDBeh) (ou
 		out.note = "infra: open: " + err.Error()
 		return
 	}
-	closed := false
 	defer func() {
-		if !closed && r.db != nil {
-			_ = r.db.Close()
+		if r.db != nil {
+			_ = r.close()
 		}
 	}()
 	fail := func(step int, sig string, want, got any, note string) {
 		out.mismatch = &verifkit.Mismatch{Beh: beh, Step: step, Want: want, Got: got, Sig: sig, Note: note}
 	}
+	left := func(i int, act string, want, got any) {
+		if !out.diverged {
+			out.note = fmt.Sprintf("step %d (%s): specification %s, implementation %s", i, act, verifkit.Canon(want), verifkit.Canon(got))
+		}
+		out.diverged = true
+	}
+	tracing := mode == "C15" || mode == "C19"
+	emit := func(ev string, kv ...any) map[string]any {
+		m := map[string]any{"ev": ev, "b": idx}
+		for i := 0; i+1 < len(kv); i += 2 {
+			m[kv[i].(string)] = kv[i+1]
+		}
+		if tracing {
+			out.trace = append(out.trace, m)
+		}
+		return m
+	}
+	emit("Begin", "clock0", beh.C.Clock0)
 	ctx := context.Background()
 	var classes []string
 	var lastPost map[string]any
@@ -373,11 +398,12 @@ func verifMDRunBehaviour(t *testing.T, mode string, idx int, beh verifMDBeh) (ou
 		post := st.Post()
 		act := st.Act()
 		classes = append(classes, act)
-		stop := false
+		var line map[string]any
 		switch act {
 		case "Save":
 			rq, _ := st["rq"].(map[string]any)
 			res := r.save(rq)
+			line = emit("Save", "rq", rq, "ok", res.ok, "rid", res.ev.Id, "rver", res.ev.Version, "rns", res.ev.NamespaceId)
 			want := []any{st.Bool("ok")}
 			got := []any{res.ok}
 			if st.Bool("ok") && res.ok {
@@ -388,11 +414,7 @@ func verifMDRunBehaviour(t *testing.T, mode string, idx int, beh verifMDBeh) (ou
 				classes[len(classes)-1] = "Save!" + st.Str("why")
 			}
 			if verifkit.Canon(want) != verifkit.Canon(got) {
-				if mode == "C15" {
-					fail(i, "reply-mismatch: SaveEntity", map[string]any{"reply": want, "why": st.Str("why")}, map[string]any{"reply": got, "err": res.err}, "")
-					return
-				}
-				out.diverged = true
+				left(i, act, want, []any{got, res.err})
 			}
 		case "Race":
 			q1, _ := st["q1"].(map[string]any)
@@ -405,27 +427,24 @@ func verifMDRunBehaviour(t *testing.T, mode string, idx int, beh verifMDBeh) (ou
 			go func() { defer wg.Done(); <-start; r2 = r.save(q2) }()
 			close(start)
 			wg.Wait()
+			line = emit("Race", "q1", q1, "q2", q2, "ok1", r1.ok, "ok2", r2.ok, "id1", r1.ev.Id, "id2", r2.ev.Id,
+				"ver1", r1.ev.Version, "ver2", r2.ev.Version, "ns1", r1.ev.NamespaceId, "ns2", r2.ev.NamespaceId)
 			got := []any{r1.ok, r2.ok, r1.ev.Version, r2.ev.Version}
 			alt, _ := st["alt"].(map[string]any)
 			as := verifkit.Step(alt)
 			w1 := []any{st.Bool("ok1"), st.Bool("ok2"), st.Int("ver1"), st.Int("ver2")}
 			w2 := []any{as.Bool("ok1"), as.Bool("ok2"), as.Int("ver1"), as.Int("ver2")}
-			if r1.ok && r2.ok {
-				classes[len(classes)-1] = "Race:both"
-			}
 			switch verifkit.Canon(got) {
 			case verifkit.Canon(w1):
 			case verifkit.Canon(w2):
-				// the other serialisation: the rest of the exported behaviour does not apply
+				// the other serialisation: from here on the exported behaviour is only a script
 				post = as.Post()
-				stop = true
 				classes[len(classes)-1] = "Race:alt"
-			default:
-				if mode == "C15" {
-					fail(i, "reply-mismatch: racing edits", []any{w1, w2}, map[string]any{"reply": got, "err1": r1.err, "err2": r2.err}, "")
-					return
+				if verifkit.Canon(w1) != verifkit.Canon(w2) {
+					out.diverged = true
 				}
-				out.diverged = true
+			default:
+				left(i, act, []any{w1, w2}, []any{got, r1.err, r2.err})
 			}
 		case "Goc":
 			resp, err := r.db.GetOrCreateMapping(ctx, st.Str("metric"), st.Str("key"))
@@ -439,57 +458,41 @@ func verifMDRunBehaviour(t *testing.T, mode string, idx int, beh verifMDBeh) (ou
 					kind = "flood"
 				}
 			}
+			line = emit("Goc", "metric", st.Str("metric"), "key", st.Str("key"), "kind", kind, "rid", id)
 			classes[len(classes)-1] = "Goc:" + st.Str("kind")
 			want := []any{st.Str("kind"), st.Int("rid")}
 			got := []any{kind, id}
 			if verifkit.Canon(want) != verifkit.Canon(got) {
-				if mode == "C19" {
-					sig := "reply-mismatch: GetOrCreateMapping"
-					if st.Str("kind") == "flood" && kind == "created" {
-						sig = "flood-limit exceeded"
-					}
-					fail(i, sig, want, map[string]any{"reply": got, "err": fmt.Sprint(err)}, "")
-					return
-				}
-				out.diverged = true
+				left(i, act, want, []any{got, fmt.Sprint(err)})
 			}
 		case "Put":
-			var ks []string
-			var vs []int32
+			ks, vs := []string{}, []int32{}
 			for _, k := range st["ks"].([]any) {
 				ks = append(ks, k.(string))
 			}
 			for _, v := range st["vs"].([]any) {
 				vs = append(vs, int32(v.(float64)))
 			}
-			if err := r.db.PutMapping(ctx, ks, vs); err != nil {
-				if mode == "C19" {
-					fail(i, "reply-mismatch: PutMapping", "ok", err.Error(), "")
-					return
-				}
-				out.diverged = true
+			err := r.db.PutMapping(ctx, ks, vs)
+			line = emit("Put", "ks", ks, "vs", vs, "ok", err == nil)
+			if err != nil {
+				left(i, act, "ok", err.Error())
 			}
 		case "Del":
-			var ids []int32
+			ids := []int32{}
 			for _, v := range st["ids"].([]any) {
 				ids = append(ids, int32(v.(float64)))
 			}
 			cnt, err := r.db.deleteMappingsByIdBatched(ctx, ids)
+			line = emit("Del", "ids", ids, "ok", err == nil)
 			if err != nil || int(cnt) != st.Int("cnt") {
-				if mode == "C19" {
-					fail(i, "reply-mismatch: deleteMappingsByIdBatched", st.Int("cnt"), map[string]any{"cnt": cnt, "err": fmt.Sprint(err)}, "")
-					return
-				}
-				out.diverged = true
+				left(i, act, st.Int("cnt"), []any{cnt, fmt.Sprint(err)})
 			}
 		case "Reset":
 			_, after, err := r.db.ResetFlood(ctx, st.Str("metric"), int64(st.Int("limit")))
+			line = emit("RFlood", "metric", st.Str("metric"), "limit", st.Int("limit"), "ok", err == nil)
 			if err != nil || int(after) != st.Int("after") {
-				if mode == "C19" {
-					fail(i, "reply-mismatch: ResetFlood", st.Int("after"), map[string]any{"after": after, "err": fmt.Sprint(err)}, "")
-					return
-				}
-				out.diverged = true
+				left(i, act, st.Int("after"), []any{after, fmt.Sprint(err)})
 			}
 		case "Boot":
 			var ms []tlstatshouse.Mapping
@@ -507,16 +510,17 @@ func verifMDRunBehaviour(t *testing.T, mode string, idx int, beh verifMDBeh) (ou
 				out.note = "infra: put bootstrap: " + err.Error()
 				return
 			}
+			line = emit("Boot")
 		case "Tick":
 			r.mu.Lock()
 			r.now += int64(st.Int("d"))
 			r.mu.Unlock()
+			line = emit("Tick", "d", st.Int("d"))
 		case "Snap":
-			if err := r.db.Close(); err != nil {
+			if err := r.close(); err != nil {
 				out.note = "infra: close: " + err.Error()
 				return
 			}
-			r.db = nil
 			name := fmt.Sprintf("snap%d", len(r.snaps))
 			if err := verifMDCopyDB(dir, "db", name); err != nil {
 				out.note = "infra: copy: " + err.Error()
@@ -524,18 +528,15 @@ func verifMDRunBehaviour(t *testing.T, mode string, idx int, beh verifMDBeh) (ou
 			}
 			r.snaps = append(r.snaps, name)
 			if err := r.open("db", false); err != nil {
-				if mode == "C16" {
-					fail(i, "replay-fails: reopen of the primary's own file", "open", err.Error(), "")
-				} else {
-					out.note = "infra: reopen: " + err.Error()
-				}
+				fail(i, "replay-fails: reopen of the primary's own file", "open", err.Error(), "")
 				return
 			}
+			line = emit("Snap")
 		default:
 			out.note = "infra: unknown action " + act
 			return
 		}
-		// projected state after the step against the specification
+		// the tables read back after the step
 		proj, err := verifMDProject(r.db, mode != "C15")
 		if err != nil {
 			if mode == "C16" {
@@ -545,33 +546,23 @@ func verifMDRunBehaviour(t *testing.T, mode string, idx int, beh verifMDBeh) (ou
 			}
 			return
 		}
+		if mode == "C15" && act != "Tick" {
+			line["j"] = proj["j"]
+		}
+		if mode == "C19" && act != "Tick" {
+			line["m"] = proj["m"]
+		}
+		// agreement with the mechanism of the specification: counted only
 		want := map[string]any{}
 		for k, v := range post {
 			want[k] = v
 		}
-		var verdict, white []string
-		switch mode {
-		case "C15":
+		fields := []string{"j", "h", "m", "seq", "eseq", "f", "b"}
+		if mode == "C15" {
 			want["h"] = verifMDHistPublic(post["h"])
-			verdict, white = []string{"j", "h"}, []string{"eseq"}
-		case "C19":
-			verdict, white = []string{"m"}, []string{"seq", "f"}
-		default:
-			white = []string{"j", "h", "m", "seq", "eseq", "f", "b"}
 		}
-		if d := verifMDDiff(want, proj, verdict); len(d) > 0 {
-			w, g := map[string]any{}, map[string]any{}
-			for _, f := range d {
-				w[f], g[f] = want[f], proj[f]
-			}
-			fail(i, "state-mismatch: "+strings.Join(d, ","), w, g, "after "+act)
-			return
-		}
-		if d := verifMDDiff(want, proj, white); len(d) > 0 {
-			out.diverged = true
-			if out.note == "" {
-				out.note = fmt.Sprintf("step %d (%s): differs from the specification in %v: spec %s impl %s", i, act, d, verifkit.Canon(want[d[0]]), verifkit.Canon(proj[d[0]]))
-			}
+		if d := verifMDDiff(want, proj, fields); len(d) > 0 && !out.diverged {
+			left(i, act+" state "+strings.Join(d, ","), want[d[0]], proj[d[0]])
 		}
 		if mode == "C15" {
 			jj, _ := json.Marshal(proj["j"])
@@ -592,9 +583,6 @@ func verifMDRunBehaviour(t *testing.T, mode string, idx int, beh verifMDBeh) (ou
 			}
 		}
 		lastPost = post
-		if stop {
-			break
-		}
 	}
 	out.class = strings.Join(classes, ",")
 	if mode != "C16" {
@@ -606,11 +594,10 @@ func verifMDRunBehaviour(t *testing.T, mode string, idx int, beh verifMDBeh) (ou
 		out.note = "infra: projection: " + err.Error()
 		return
 	}
-	if err := r.db.Close(); err != nil {
+	if err := r.close(); err != nil {
 		out.note = "infra: close: " + err.Error()
 		return
 	}
-	closed = true
 	var taints []any
 	if lastPost != nil {
 		taints, _ = lastPost["taint"].([]any)
@@ -627,7 +614,7 @@ func verifMDRunBehaviour(t *testing.T, mode string, idx int, beh verifMDBeh) (ou
 			return
 		}
 		rep, err := verifMDProject(r.db, true)
-		cerr := r.db.Close()
+		cerr := r.close()
 		if err != nil || cerr != nil {
 			out.note = fmt.Sprintf("infra: replayed projection: %v %v", err, cerr)
 			return
@@ -697,6 +684,8 @@ func TestVerifC15C16C19(t *testing.T) {
 	})
 	workers := verifkit.EnvInt("VERIF_WORKERS", 8)
 	var wg sync.WaitGroup
+	var tmu sync.Mutex
+	traces := map[string][]map[string]any{} // budget constants -> concatenated runs
 	next := make(chan int)
 	for w := 0; w < workers; w++ {
 		wg.Add(1)
@@ -719,6 +708,13 @@ func TestVerifC15C16C19(t *testing.T) {
 					res.Count("left_spec", 1)
 					res.Note("behaviour %d: %s", i, o.note)
 				}
+				if len(o.trace) > 0 {
+					c := behs[i].C
+					key := fmt.Sprintf("%d_%d_%d_%d", c.MaxBudget, c.Step, c.Bonus, c.Global)
+					tmu.Lock()
+					traces[key] = append(traces[key], o.trace...)
+					tmu.Unlock()
+				}
 				res.Count("ok", 1)
 				res.Seen(o.class)
 				if i%997 == 0 {
@@ -732,6 +728,16 @@ func TestVerifC15C16C19(t *testing.T) {
 	}
 	close(next)
 	wg.Wait()
+	groups := map[string]string{}
+	for _, key := range verifkit.SortedKeys(traces) {
+		p := filepath.Join(verifkit.TmpDir(t, "mdtrace"), "trace_"+key+".ndjson")
+		if err := verifkit.WriteNDJSON(p, traces[key]); err != nil {
+			t.Fatal(err)
+		}
+		groups[key] = p
+		res.Files = append(res.Files, p)
+	}
+	res.Consts["groups"] = groups
 	res.Replayed = res.Counters["ok"]
 	res.Steps = res.Counters["steps"]
 }
